@@ -17,41 +17,10 @@ class C08(TieCheck):
         return ["tier=" + tier, "prop=C08"]
 
     def extra(self, tier, seed, work, coverage):
-        """Dispatch / redirect half of C08 (ignore serves, redirect only for clean non-root paths and
-        never for CONNECT, 301/308, Location): run the dispatch harness (c11) against the Dispatch model
-        and specification; every disagreement is a failing input of C08 as well."""
-        import os, shutil, json
+        """Dispatch / redirect half of C08 (ignore serves, redirect only for clean non-root paths and never
+        for CONNECT, 301/308, Location): the dispatch harness against the Dispatch model and specification."""
         import lib
-        out = []
-        ok, lg = lib.coq_build("Dispatch", targets=["Corr.vo"])
-        hb, hl = lib.build_harness("c11")
-        if not ok or hb is None:
-            return [("dispatch half: model or harness does not build: " + (lg if not ok else hl)[-800:], {})]
-        d = os.path.join(work, "cases_dispatch")
-        if os.path.isdir(d):
-            shutil.rmtree(d)
-        rc, o = lib.sh([hb, "out=" + d, "shards=%d" % lib.NCPU, "tier=quick"], cwd=work, env=lib.go_env(), timeout=1500)
-        if rc != 0:
-            return [("dispatch harness failed: " + o[-800:], {})]
-        res, errs = lib.eval_cases(d, "Dispatch")
-        for k, e in errs:
-            out.append(("dispatch case evaluation failed (shard %d): %s" % (k, e[-400:]), {}))
-        bad = list(dict.fromkeys(res.get("mism", []) + res.get("viol", [])))
-        attributed = set()
-        for name, idxs in res.items():
-            if name.startswith("known_"):
-                attributed.update(idxs)
-        bad = [c for c in bad if c not in attributed or c in res.get("mism", [])]
-        for c in bad[:10]:
-            out.append(("dispatch: " + lib.human_case(d, *c)[:700], {}))
-        try:
-            st = json.load(open(os.path.join(d, "stats.json")))
-            coverage["dispatch_evaluations"] = int(st.get("evaluations", 0))
-            coverage["dispatch_mismatches"] = len(res.get("mism", []))
-            coverage["dispatch_spec_failures"] = len(res.get("viol", []))
-        except Exception:
-            pass
-        return out
+        return lib.dispatch_extra(work, coverage, tier)
 
 
 CHECK = C08()
